@@ -32,7 +32,7 @@ def _strategy():
             size = draw(st.sampled_from([1, 2, 4]))
             nb = draw(st.sampled_from([1, 4, 7, 8, 20]))
             op = {"op": draw(st.sampled_from(["read", "write"])), "fate": fate, "size": size, "count": max(1, nb // size),
-                  "data_seed": draw(st.integers(0, 10 ** 5)), "gap_after": draw(st.sampled_from([0.05, 0.05, 0.5, 1.5, 3.5])),
+                  "data_seed": draw(st.integers(0, 10 ** 5)), "gap_after": draw(st.sampled_from([0.001, 0.001, 0.05, 0.05, 0.5, 1.5, 3.5])),
                   "addr_sel": draw(st.sampled_from([0, 0, 0, 1, 2])), "raw": draw(st.booleans())}
             if fate == "respond_error":
                 op["error"] = draw(st.one_of(st.sampled_from(_errors()), st.sampled_from([0xBEEF, 0x3, 0xABCDE, 0x7FFFFF])))
@@ -42,6 +42,11 @@ def _strategy():
             if fate == "wrong_key":
                 op["wrong"] = draw(st.sampled_from(["xor1", "xor_hi", "xor_top", "zero", "ffff", "other"]))
             ops.append(op)
+        # an operation that follows within a millisecond must not be one for which the harness takes the server off the bus:
+        # the closing DM14 of the operation before may still be in flight (latency up to 5 ms) and would be lost with it
+        for a, b in zip(ops, ops[1:]):
+            if b["fate"] == "absent" and a["gap_after"] < 0.02:
+                a["gap_after"] = 0.05
         return {"seed_key": seed_key,
                 "seeds": draw(st.lists(st.one_of(st.sampled_from([0x0000, 0xFFFF, 1, 0xFFFE, 0x8000, 0x00FF]), st.integers(0, 0xFFFF)), min_size=1, max_size=3)),
                 "ops": ops, "final_probe": True, "sas": draw(st.sampled_from([[0xF9, 0xD4, 0xA7], [0xF9, 0xD4, 0xA7], [0x00, 0xD4, 0xA7], [0x01, 0x00, 0xFD], [0xFD, 0x80, 0x00], [0x7F, 0xFD, 0x01]])),
